@@ -46,6 +46,8 @@ structure ResVal where
   hold : Option Nat := none
   deriving DecidableEq, Repr, Inhabited
 
+def ResVal.isEmpty (v : ResVal) : Bool := v.params.isNone && v.hold.isNone
+
 structure ResRec where
   addr : Addr
   cidx : Cidx
